@@ -496,7 +496,9 @@ fn gen_c08(r: &mut Rng, _t: Tier, job: u64) -> Plan {
         // one parameter is streamed (SEND_LONG_DATA) for the first execution; the executions
         // after it bind it inline again and must see exactly the inline value
         let k = r.below(np as u64) as u16;
-        let n = size_tiny(r);
+        // (an empty value streamed as one zero-length chunk -- what libmysqlclient sends for
+        // mysql_stmt_send_long_data(stmt, i, "", 0) -- is a streamed value all the same)
+        let n = if r.chance(1, 3) { 0 } else { size_tiny(r) };
         let pos = cmds.iter().position(|c| matches!(c.kind, CmdKind::Execute { stmt, .. } if stmt == id)).unwrap_or(cmds.len());
         cmds.insert(
             pos,
@@ -827,6 +829,23 @@ fn gen_c10(r: &mut Rng, _t: Tier, job: u64) -> Plan {
             let dead: Vec<u32> = pool.iter().cloned().filter(|x| !live.contains_key(x)).collect();
             if let Some(&d) = dead.first() {
                 let d = if r.coin() { d } else { *r.pick(&dead) };
+                if r.chance(1, 4) {
+                    // a statement command this library does not implement (COM_STMT_RESET,
+                    // COM_STMT_FETCH) or COM_RESET_CONNECTION names / precedes the dead id:
+                    // whatever the server makes of it, the id stays dead
+                    let mut body = vec![*r.pick(&[0x1au8, 0x1a, 0x1c, 0x1f])];
+                    if body[0] != 0x1f {
+                        body.extend_from_slice(&d.to_le_bytes());
+                    }
+                    if body[0] == 0x1c {
+                        body.extend_from_slice(&1u32.to_le_bytes());
+                    }
+                    cmds.push(Cmd {
+                        seq: 0,
+                        kind: CmdKind::Unsupported(Blob::Lit(body)),
+                        act: Act::None,
+                    });
+                }
                 if r.coin() {
                     cmds.push(Cmd {
                         seq: 0,
